@@ -417,6 +417,15 @@ impl Client {
                 // handshake must have been received. Ignore that.
 
                 if frame.nonce_ack == state.local_nonce {
+                    if (frame.max_receive_alloc as usize) < self.config.endpoint_config.max_packet_size {
+                        // The server could never receive a packet of our maximum size (such a
+                        // packet would sit in the send queue forever), so treat this the same way
+                        // the server treats the mirrored case: as a configuration mismatch.
+                        self.events_out.push(Event::Error(ErrorType::Config));
+                        self.state = State::Fin;
+                        return;
+                    }
+
                     let reply = frame::Frame::HandshakeAckFrame(frame::HandshakeAckFrame {
                         nonce_ack: frame.nonce,
                     });
